@@ -230,11 +230,21 @@ def ts_stream(ctx, n):
             continue
         for di, dev in enumerate(r['devs']):
             rows = r['series'][dev]
+            rounded = False
             for t, _ in rows:
                 if 0 < t <= tf:
                     ctx.count('timeseries_stamps')
                     if t not in stamps:
-                        ctx.oracle_fail('step-crosses-event', 'no stored step ends exactly at the time-series stamp %r of %s' % (t, dev), case)
+                        if any(abs(st_ - t) <= 4e-16 * max(1.0, abs(t)) for st_ in stamps):
+                            # the step clipped to h = s - t lands one ulp beside the stamp s: the known floating-point
+                            # finding; the update scheduled at s is then never applied (its time is never "now")
+                            rounded = True
+                            ctx.oracle_fail('switch-time-rounding', 'floating point: the step clipped to the time-series stamp %r of %s lands one '
+                                            'ulp beside it; the update scheduled there is never applied' % (t, dev), case)
+                        else:
+                            ctx.oracle_fail('step-crosses-event', 'no stored step ends exactly at the time-series stamp %r of %s' % (t, dev), case)
+            if rounded:
+                continue
             # a step that ends at time t was solved with the rows whose stamp is < t (the update is applied after the
             # step that lands on its stamp); at the end of a run the rows with stamp <= t have been applied
             def want(t, strict):
